@@ -1,7 +1,8 @@
 /-
 C08 — Scan results depend only on content, not on enumeration order or root count.
 
-CONFIGURATION CLASS of the exact theorems here: `Benign c` (no inode limit, no cancellation, `ErrorOnFSErrors`
+NAMING: `_benign` = holds inside the configuration class Benign (named in the theorem); `_partial` = a further hypothesis narrows the
+quantifier over inputs.  CONFIGURATION CLASS of the exact theorems here: `Benign c` (no inode limit, no cancellation, `ErrorOnFSErrors`
 off, extractors do not panic) with `GiOK c` (go-git's domain rule).  In the other classes a scan may stop early,
 and WHERE it stops depends on the listing order (the inode limit and a cancellation point are reached after a
 different prefix), so order independence is not claimed there; only `C08_cmp_order` / `C08_sorted` (every
@@ -15,6 +16,7 @@ import Scalibr.Proofs.WalkMore
 import Scalibr.Proofs.WalkPerm
 import Scalibr.Proofs.WalkPermScan
 import Scalibr.Proofs.WalkOnce
+import Scalibr.Proofs.WalkPermFinds
 namespace Scalibr.Walk
 
 /-- `slices.SortFunc`'s precondition for `CmpPackages`: the four-key lexicographic comparison on byte
@@ -45,7 +47,7 @@ theorem C08_sorted (nm : Naming) (c : Cfg) (roots : List (Node × Faults)) :
 
 /-- The listing order of EVERY directory is irrelevant to what must be extracted (as a multiset), for
 arbitrary rearrangements `ρ` of every directory of the tree. -/
-theorem C08_perm_spec (c : Cfg) (f : Faults) (hf : NoReadFaults f) (above : List GiEntry)
+theorem C08_perm_spec_partial (c : Cfg) (f : Faults) (hf : NoReadFaults f) (above : List GiEntry)
     (ρ : Rearr) (hρ : ∀ p l, (ρ p l).Perm l) (p : Path) (n : Node) :
     (mustFrom c f above p (permuteTree ρ p n)).Perm (mustFrom c f above p n) :=
   mustFrom_permute c f hf above ρ hρ p n
@@ -54,7 +56,7 @@ theorem C08_perm_spec (c : Cfg) (f : Faults) (hf : NoReadFaults f) (above : List
 kept for reference; the general statements are `C08_perm_scan_roots_partial` (several roots, each rearranged
 independently; also `err` and statuses) and `C08_perm_scan_paths_partial` (requested paths) below.
 The packages are a permutation of each other, and the emitted, sorted key sequence is IDENTICAL. -/
-theorem C08_perm_scan (nm : Naming) (c : Cfg) (hb : Benign c) (hp : c.paths = []) (f : Faults) (hf : NoReadFaults f)
+theorem C08_perm_scan_partial (nm : Naming) (c : Cfg) (hb : Benign c) (hp : c.paths = []) (f : Faults) (hf : NoReadFaults f)
     (root : Node) (ρ : Rearr) (hρ : ∀ p l, (ρ p l).Perm l)
     (ho : GiOK c) :
     (run c [(permuteTree ρ [] root, f)]).pkgs.Perm (run c [(root, f)]).pkgs ∧
@@ -81,15 +83,21 @@ theorem C08_perm_scan (nm : Naming) (c : Cfg) (hb : Benign c) (hp : c.paths = []
 `Rearranged roots' roots`: same number of roots, root by root the same fault plan and a tree that is SOME
 rearrangement (an arbitrary permutation of EVERY directory listing, chosen independently per root) of the
 other.  Then: both scans succeed; the inventories are permutations of each other; the per-root status lists are
-EQUAL; the emitted, sorted package-key sequence and the emitted status list of `scan` are EQUAL. -/
+EQUAL; the emitted, sorted package-key sequence and the emitted status list of `scan` are EQUAL; and the FINDINGS
+collected from the filesystem extractors (`run … .finds`: finding id, extractor, file) are permutations of each
+other — which is the hypothesis `C08_findings_order_independent` (Properties/C08Findings.lean) needs to conclude that
+the emitted, sorted findings agree. -/
 theorem C08_perm_scan_roots_partial (nm : Naming) (c : Cfg) (hb : Benign c) (ho : GiOK c) (hp : c.paths = [])
     (roots' roots : List (Node × Faults)) (h : Rearranged roots' roots) :
     ((run c roots').err = .none ∧ (run c roots).err = .none) ∧
     (run c roots').pkgs.Perm (run c roots).pkgs ∧
     (run c roots').statuses = (run c roots).statuses ∧
     (scan nm c roots').pkgs.map nm.key = (scan nm c roots).pkgs.map nm.key ∧
-    (scan nm c roots').statuses = (scan nm c roots).statuses :=
-  perm_scan_roots_rel nm c hb ho hp roots' roots h
+    (scan nm c roots').statuses = (scan nm c roots).statuses ∧
+    (run c roots').finds.Perm (run c roots).finds :=
+  ⟨(perm_scan_roots_rel nm c hb ho hp roots' roots h).1, (perm_scan_roots_rel nm c hb ho hp roots' roots h).2.1,
+   (perm_scan_roots_rel nm c hb ho hp roots' roots h).2.2.1, (perm_scan_roots_rel nm c hb ho hp roots' roots h).2.2.2.1,
+   (perm_scan_roots_rel nm c hb ho hp roots' roots h).2.2.2.2, perm_scan_roots_finds c hb ho hp roots' roots h⟩
 
 /-- **Order independence with requested paths** (`c.paths` arbitrary, the same set on both sides; class `Benign`;
 narrowing: `NoReadFaults` and `DistinctNames` for every tree — a requested path is resolved to the first entry
@@ -100,8 +108,18 @@ theorem C08_perm_scan_paths_partial (nm : Naming) (c : Cfg) (hb : Benign c) (ho 
     (run c roots').pkgs.Perm (run c roots).pkgs ∧
     (run c roots').statuses = (run c roots).statuses ∧
     (scan nm c roots').pkgs.map nm.key = (scan nm c roots).pkgs.map nm.key ∧
-    (scan nm c roots').statuses = (scan nm c roots).statuses :=
-  perm_scan_paths_rel nm c hb ho roots' roots h
+    (scan nm c roots').statuses = (scan nm c roots).statuses ∧
+    (run c roots').finds.Perm (run c roots).finds :=
+  ⟨(perm_scan_paths_rel nm c hb ho roots' roots h).1, (perm_scan_paths_rel nm c hb ho roots' roots h).2.1,
+   (perm_scan_paths_rel nm c hb ho roots' roots h).2.2.1, (perm_scan_paths_rel nm c hb ho roots' roots h).2.2.2.1,
+   (perm_scan_paths_rel nm c hb ho roots' roots h).2.2.2.2, perm_scan_paths_finds c hb ho roots' roots h⟩
+
+/-- The findings of a scan are a function of its attempts (EVERY configuration without a panicking extractor): when the
+scan does not fail they are exactly what the `Extract` invocations returned, attributed to extractor and file, in
+attempt order; a failing scan reports none.  (Counterpart of `C01_inv` for findings.) -/
+theorem C08_finds_of_calls (c : Cfg) (hx : ∀ e p, (c.extract e p).panics = false) (roots : List (Node × Faults)) :
+    (run c roots).finds = if (run c roots).err = .none then findsOfCalls c (run c roots).calls else [] :=
+  run_finds c hx roots
 
 /-- both narrowing hypotheses are needed (decided on concrete scans) -/
 theorem C08_perm_needs_noReadFaults :
@@ -114,8 +132,8 @@ theorem C08_perm_paths_needs_distinct :
 /-- Scanning several roots yields exactly the concatenation of scanning each root alone (inventory and
 statuses) — of the engine result `run`; the emitted `scan` is its stable sort — so a later root never repeats an
 earlier root's packages. (Before fix 88fdbb3a every earlier root's packages were reported again for each later
-root.)  "No package is reported twice" as such is `C08_no_dup` below. -/
-theorem C08_roots (c : Cfg) (hb : Benign c) (roots : List (Node × Faults)) (ho : GiOK c) :
+root.)  "No package is reported twice" as such is `C08_no_dup_partial` below. -/
+theorem C08_roots_benign (c : Cfg) (hb : Benign c) (roots : List (Node × Faults)) (ho : GiOK c) :
     (run c roots).pkgs = roots.flatMap (fun rf => (run c [rf]).pkgs) ∧
     (run c roots).statuses = roots.flatMap (fun rf => (run c [rf]).statuses) := by
   have h := run_results c hb roots ho
@@ -141,8 +159,8 @@ example : NoReadFaults {} := fun _ _ => rfl
 root, whole-tree scan, `DistinctNames`): if no single `Extract` result lists a package twice, the inventory —
 whose entries are (package, extractor, file) — lists none twice.  With several roots (or a path requested twice)
 the same relative path is extracted once per root and its packages appear once per root: that is "two `Extract`
-results contain it", and `C08_roots` says exactly which. -/
-theorem C08_no_dup (c : Cfg) (hb : Benign c) (ho : GiOK c) (hp : c.paths = []) (root : Node) (f : Faults)
+results contain it", and `C08_roots_benign` says exactly which. -/
+theorem C08_no_dup_partial (c : Cfg) (hb : Benign c) (ho : GiOK c) (hp : c.paths = []) (root : Node) (f : Faults)
     (h : DistinctNames root) (hx : ∀ e p, (c.extract e p).pkgs.Nodup) : (run c [(root, f)]).pkgs.Nodup :=
   run_pkgs_nodup c hb ho hp root f h hx
 
@@ -159,9 +177,19 @@ example : Rearranged pxForest.rearranged pxForest.orig :=
 example : RearrangedDistinct pxForest.rearranged pxForest.orig :=
   .cons pxRev pxRev_perm (fun _ _ => rfl) (by simp [pxT1, DistinctNames, DistinctNamesL])
     (.cons pxTop pxTop_perm (fun _ _ => rfl) (by simp [pxT2, DistinctNames, DistinctNamesL]) .nil)
-/-- `C08_roots` on two roots: the inventory of the two-root scan is the first root's followed by the second root's -/
+/-- `C08_roots_benign` on two roots: the inventory of the two-root scan is the first root's followed by the second root's -/
 example : (run pxCfg pxForest.orig).pkgs = (run pxCfg [(pxT1, {})]).pkgs ++ (run pxCfg [(pxT2, {})]).pkgs := by
-  have := (C08_roots pxCfg pxCfg_benign pxForest.orig pxCfg_giOK).1
+  have := (C08_roots_benign pxCfg pxCfg_benign pxForest.orig pxCfg_giOK).1
   simpa [RForest.orig, pxForest] using this
+
+/-! findings: every `Extract` of the example configuration additionally returns finding 7; the collected findings of the
+rearranged forest are a DIFFERENT list but the same multiset (specification side, by evaluation), and the theorem applies -/
+def pxCfgF : Cfg := { pxCfg with extract := fun e p => { pxCfg.extract e p with finds := [7] } }
+example : findsOfCalls pxCfgF (mustExtract pxCfgF pxForest.rearranged) ≠ findsOfCalls pxCfgF (mustExtract pxCfgF pxForest.orig) ∧
+    (findsOfCalls pxCfgF (mustExtract pxCfgF pxForest.rearranged)).Perm (findsOfCalls pxCfgF (mustExtract pxCfgF pxForest.orig)) ∧
+    (findsOfCalls pxCfgF (mustExtract pxCfgF pxForest.orig)).length = 7 := by decide
+example (nm : Naming) : (run pxCfgF pxForest.rearranged).finds.Perm (run pxCfgF pxForest.orig).finds :=
+  (C08_perm_scan_roots_partial nm pxCfgF ⟨rfl, rfl, rfl, rfl, fun _ _ => rfl⟩ (fun _ _ _ _ _ => rfl) rfl _ _
+    (.cons pxRev pxRev_perm (fun _ _ => rfl) (.cons pxTop pxTop_perm (fun _ _ => rfl) .nil))).2.2.2.2.2
 
 end Scalibr.Walk
